@@ -44,6 +44,10 @@ type tPart struct {
 	// Set "any" | "first" | "last": the part is `set(NT<args>)`, `set(first NT<args>)`, ...: one
 	// terminal of that set of the instance of NT given by the (literal) arguments and defaults.
 	Set string `json:"set,omitempty"`
+	// LA 1 | 2: the part is a lookahead predicate `(?= NT<args>)` / `(?= !NT<args>)`: it derives
+	// nothing, but the instance of NT it refers to (resolved in the context of the enclosing
+	// nonterminal, like any reference) becomes a synthetic input of the compiled grammar.
+	LA int `json:"la,omitempty"`
 }
 
 type tLit struct {
@@ -296,6 +300,12 @@ func (c *c14Case) render() string {
 					}
 					s += "<" + strings.Join(as, ", ") + ">"
 				}
+				switch p.LA {
+				case 1:
+					s = "(?= " + s + ")"
+				case 2:
+					s = "(?= !" + s + ")"
+				}
 				switch p.Set {
 				case "any":
 					s = "set(" + s + ")"
@@ -330,6 +340,20 @@ type c14Inst struct {
 	bad   string // reason why the grammar is outside the interpreter's domain
 	queue []func()
 	sets  []c14Set // set nonterminals, resolved once all instances exist
+	// laTargets: canonical names (instanceName) of the instances used in lookahead predicates
+	laTargets map[string]bool
+}
+
+// instanceName is "<nonterminal>|<names of its declared parameters that are true, sorted>".
+func (in *c14Inst) instanceName(nt int, env tEnv) string {
+	var on []string
+	for _, p := range in.c.NTs[nt].Params {
+		if env[p] {
+			on = append(on, in.c.Params[p].Name)
+		}
+	}
+	sort.Strings(on)
+	return in.c.NTs[nt].Name + "|" + strings.Join(on, ",")
 }
 
 func (in *c14Inst) key(nt int, env tEnv) string {
@@ -392,6 +416,16 @@ func (in *c14Inst) instance(nt int, env tEnv) int {
 			variants := [][]int{{}}
 			for pi, p := range a.Parts {
 				var sym int
+				if p.LA != 0 {
+					// a predicate: nothing on the right-hand side, its target instance is recorded
+					tenv := in.targetEnv(nt, env, p, false)
+					in.instance(p.NT, tenv)
+					if in.laTargets == nil {
+						in.laTargets = map[string]bool{}
+					}
+					in.laTargets[in.instanceName(p.NT, tenv)] = true
+					continue
+				}
 				if p.Term > 0 {
 					sym = in.term(p.Term)
 				} else if p.Set != "" {
@@ -585,6 +619,23 @@ func c14Check(c c14Case, r *ev.Recorder) *Failure {
 			return failf("input-eoi-mode", "input %s: declared no-eoi=%v, after instantiation no-eoi=%v; grammar:\n%s", c.NTs[c.Inputs[k]].Name, want, inp.NoEoi, src)
 		}
 	}
+	// lookahead predicates refer to the instances the enclosing valuation selects: they are the
+	// synthetic inputs of the compiled grammar
+	gotLA := map[string]bool{}
+	for _, inp := range out.Parser.Inputs {
+		if inp.Synthetic {
+			f := strings.Split(out.Parser.Nonterms[inp.Nonterm].Name, "_")
+			sort.Strings(f[1:])
+			gotLA[f[0]+"|"+strings.Join(f[1:], ",")] = true
+		}
+	}
+	for want := range in.laTargets {
+		if !gotLA[want] {
+			return failf("lookahead-target-instance", "a lookahead predicate must refer to instance %s (nonterminal|true parameters); the compiled grammar has the lookahead inputs %v; grammar:\n%s", want, sortedKeys(gotLA), src)
+		}
+	}
+	// (the converse is not asserted: set expressions of unreachable nonterminals are instantiated
+	// too and may bring predicates of their own)
 	big := false
 	for k, inp := range c.Inputs {
 		name := c.NTs[inp].Name
